@@ -24,6 +24,10 @@ func c14(p *core.Program, r *core.Report) {
 	r.Rule("R6", "a bit depth of 0 is a state, not an error: a fragment method that takes the bit depth, walks the value planes in a loop and returns a named count result has assigned that result on every path that returns it, including the path on which the loop runs no iteration")
 	r.Rule("R7", "strictness at depth 0: a fragment method that takes the bit depth and the allowEquality flag and walks the planes in a loop consults the flag, or tests the depth, on every path that answers (the last-plane test inside the loop never runs at depth 0)")
 	r.Rule("R5", "a value write touches every plane: positionsForValue, setValueBase and importSetValue reach a non-error return only after handling the not-null row, the sign row and the loop over the value rows (readers combine the planes without re-masking, so a clear that leaves the sign or value bits behind shows up in range queries)")
+	r.Rule("R8", "every plane is written: in every loop of a fragment writer over the bit planes of a value (bsiOffsetBit+i) each iteration that goes on to the next plane has called unprotectedSetBit/unprotectedClearBit (setBit/clearBit) or appended a position to a set/clear list; zeros are cleared unconditionally, because the planes of a column that holds no value are not known to be empty")
+	c14EveryPlaneIsWritten(p, r)
+	r.Rule("R9", "the magnitude fits: every Field method condition that refuses a value below bsiGroup.Min with ErrBSIGroupValueTooLow also refuses math.MinInt64 (sign-and-magnitude in at most 63 planes cannot hold it; the default bounds admit it)")
+	c14MagnitudeFits(p, r)
 	r.NotDecided = "the bit-sliced loops themselves (rangeEQ, rangeLTUnsigned, rangeGTUnsigned, rangeBetweenUnsigned, minUnsigned, maxUnsigned, the place-value sum) are arithmetic on runtime values and are taken at their specification; last-writer semantics of overwrites; overflow of sums"
 	pk := p.Pkg("")
 	if pk == nil {
